@@ -1129,8 +1129,12 @@ package url
 //@ func (*parser).DecodePercentEncoded
 //@   requires p != nil
 //@   ensures s == "" ==> result == ""
+//@   ensures result == specPctDec(s, len(s), p.opts.encodingOverride != nil, p.opts.encodingOverride)   [C10,C11,C09 percent-decode]
 //@   loop 1 invariant i == 0 ==> bufv(sb) == ""
 //@   loop 1 invariant 0 <= i && i <= len(bytes) && len(bytes) == len(s) && fresh(bytes) && off(bytes) == 0
+//@   loop 1 invariant forall k int :: (0 <= k && k < len(s)) ==> bytes[k] == s[k]
+//@   loop 1 invariant !specEscAt(s, i - 1) && !specEscAt(s, i - 2)
+//@   loop 1 invariant bufv(sb) == specPctDec(s, i, p.opts.encodingOverride != nil, p.opts.encodingOverride)
 //@   loop 1 decreases len(bytes) - i
 
 //@ func (*parser).PercentEncodeString
